@@ -24,14 +24,14 @@ type locksetSpec struct {
 }
 
 type lsAccess struct {
-	field    string
-	write    bool
-	heldW    bool
-	heldR    bool
-	pos      token.Pos
-	fn       string
-	inLit    bool
-	viaCall  bool
+	field   string
+	write   bool
+	heldW   bool
+	heldR   bool
+	pos     token.Pos
+	fn      string
+	inLit   bool
+	viaCall bool
 }
 
 type lsCall struct {
